@@ -326,14 +326,13 @@ def check_file(case, rec):
     pf = {}
     opts = case["opts"]
     # later options override earlier ones, as in _add_metadata
-    from biom.cli.metadata_adder import (_split_on_semicolons,
-                                         _split_on_semicolons_and_pipes,
-                                         _int, _float)
-    for name, fn in (("sc_separated", _split_on_semicolons),
-                     ("sc_pipe_separated", _split_on_semicolons_and_pipes),
-                     ("int_fields", _int), ("float_fields", _float)):
+    # process functions handed to from_file(process_fns=...): the documented
+    # per-column conversions (later options override earlier ones, as in
+    # the add-metadata command)
+    for name in ("sc_separated", "sc_pipe_separated", "int_fields",
+                 "float_fields"):
         for col in opts.get(name, []):
-            pf[col] = fn
+            pf[col] = convert(col, {name: [col]})
     text = "\n".join(lines) + "\n"
 
     def bad(sub, msg):
@@ -376,7 +375,8 @@ def check_file(case, rec):
     a = np.arange(12, dtype=float).reshape(3, 4)
     t = Table(a, ["o0", "o1", "o2"], ["s0", "s1", "s2", "s3"],
               type="OTU table")
-    from biom.cli.metadata_adder import add_metadata
+    from ..cli import command
+    add_metadata = command("add-metadata")
     with tempfile.TemporaryDirectory(prefix="vf-c18-", dir=TMP) as d:
         inp, mp, out = (os.path.join(d, x) for x in ("in.biom", "map.txt",
                                                      "out.biom"))
